@@ -115,7 +115,7 @@ def run_fault(params, ch):
         s.finish()
 
 
-KINDS = ('timeout', 'reset', 'eof')
+KINDS = ('timeout', 'reset', 'eof', 'halfclose')
 
 
 def parts(tier):
@@ -128,7 +128,7 @@ def parts(tier):
             for kind in KINDS:
                 for close in (True, False):
                     sc.append({'twin': t, 'faults': [[k, kind]], 'close': close})
-    out.append(Part('single-faults', sc, run_fault, {'dev-order': 1}, what='one fault at every transport-call index x 3 kinds x close/no close x <=1 deviation of the device wire order', bound='%d (index, kind, close, twin) cases' % len(sc)))
+    out.append(Part('single-faults', sc, run_fault, {'dev-order': 1}, what='one fault at every transport-call index x 4 kinds (timeout, reset, end-of-stream, half-closed connection that still accepts writes) x close/no close x <=1 deviation of the device wire order', bound='%d (index, kind, close, twin) cases' % len(sc)))
     sc = []
     for t in twins:
         n = solo(t, 'half')[1]
